@@ -2,6 +2,7 @@ package rt
 
 import (
 	"context"
+	"encoding/base64"
 	"fmt"
 	"net/http"
 	"sort"
@@ -384,4 +385,23 @@ func hdrKey(hs []JobHeader) string {
 		n = append(n, h.Name)
 	}
 	return strings.Join(n, "+")
+}
+
+// ValidRequestFor renders a rule-satisfying request for the method as a bridge request object (JSON transport).
+func ValidRequestFor(m *JobMethod) map[string]any {
+	target, body, _, err := validRequest(m)
+	if err != nil {
+		return nil
+	}
+	hdrs := map[string]string{"Content-Type": "application/json"}
+	for _, h := range m.Headers {
+		if h.Required {
+			hdrs[h.Name] = ValidHeaderValue(h)
+		}
+	}
+	req := map[string]any{"method": m.Verb, "url": target, "headers": hdrs}
+	if body != nil {
+		req["bodyB64"] = base64.StdEncoding.EncodeToString(body)
+	}
+	return req
 }
